@@ -40,6 +40,11 @@ def judge(rec, kind, init, m, fault):
     alive, he, res, err = rec["obs1"]
     reported = (he is False) or (he is True and err is not None)
     if not reported:
+        m0 = rec.get("marks_at_landing") or []
+        if not thread and fault == 1 and rec.get("landed") and not rec.get("released_early") and "return" in m0 and "exit" in m0:
+            # the target had returned on its own when the graceful request landed: whatever the child then reports (its own
+            # result or the termination), it does report, and the report carries the final state
+            return "c16.final-state-lost-although-the-target-had-returned", True
         return None, False
     assigned = [v for (what, v) in rec.get("state_log", []) if what == "assigned"]
     want = assigned[-1] if assigned else init
